@@ -63,6 +63,14 @@ func CatalogueForms() []Form {
 		c("var_two_names", "var u, v uint64\nr = u + v + x"), c("var_group", "var (\n\tu uint64 = x\n)\nr = u"),
 		c("local_const", "const lc uint64 = 3\nr = x + lc"), c("local_const_untyped", "const lc = 3\nr = x + lc"),
 		cd("package_const_untyped", "const PCU = 10\n", "r = x + PCU"),
+		// untyped constants take their width from where they are used: 8- and 32-bit contexts must wrap
+		cd("package_const_untyped_u8", "const PC8 = 200\n", "r8 = c + PC8\nr = uint64(r8)"),
+		cd("package_const_untyped_u32", "const PC32 = 4000000000\n", "r32 = w + PC32\nr = uint64(r32)"),
+		cd("package_const_untyped_u32_mul", "const PM32 = 100000\n", "r32 = (w + 60000) * PM32\nr = uint64(r32)"),
+		cd("package_const_untyped_shift", "const PSH = 31\n", "r32 = (w | 3) << PSH\nr = uint64(r32)"),
+		c("local_const_untyped_u8", "const lc8 = 250\nr8 = c + lc8\nr = uint64(r8)"),
+		cd("package_const_untyped_expr", "const PE1 = 3\nconst PE2 = PE1 * 80\n", "r8 = c + PE2\nr = uint64(r8)"),
+		cd("package_const_typed_u8", "const PT8 uint8 = 200\n", "r8 = c + PT8\nr = uint64(r8)"),
 		cd("package_const_iota", "const (\n\tIotaA uint64 = iota\n\tIotaB\n)\n", "r = IotaB + x"),
 		cd("package_const_iota_all", "const (\n\tIoA uint64 = iota\n\tIoB\n\tIoC\n)\n", "r = IoA*100 + IoB*10 + IoC + x"),
 		cd("package_const_iota_expr", "const (\n\tIeA uint64 = 1 << iota\n\tIeB\n\tIeC\n)\n", "r = IeA*100 + IeB*10 + IeC + x"),
